@@ -51,9 +51,26 @@ fn list_files(root: &Path, out: &mut BTreeSet<PathBuf>) {
     }
 }
 
+/// What the library makes of the CONTENTS of the input's directory: the files are collected here (following symbolic
+/// links, as any reader of the contents does) and registered by name - utils.rs is not involved, so it is judged too.
 fn lib_run(input: &Path) -> (String, Vec<u8>) {
     let r = catch_unwind(AssertUnwindSafe(|| -> Result<Vec<u8>, String> {
-        let ftr = zeep_lib::utils::read_input_file_and_xsd_files_at_path(input).map_err(|e| e.to_string())?;
+        let start = input.file_name().and_then(|n| n.to_str()).ok_or("no file name")?.to_string();
+        let text = std::fs::read_to_string(input).map_err(|e| e.to_string())?;
+        let mut files = vec![(start.clone(), text)];
+        let dir = input.parent().ok_or("no parent")?;
+        let mut names: Vec<PathBuf> = std::fs::read_dir(dir).map_err(|e| e.to_string())?.filter_map(Result::ok).map(|e| e.path()).collect();
+        names.sort();
+        for p in names {
+            let is_file = std::fs::metadata(&p).map(|m| m.is_file()).unwrap_or(false);
+            let name = p.file_name().and_then(|n| n.to_str()).unwrap_or("").to_string();
+            if is_file && name.ends_with(".xsd") && name != start {
+                if let Ok(t) = std::fs::read_to_string(&p) {
+                    files.push((name, t));
+                }
+            }
+        }
+        let ftr = crate::run::build_files(&files, None, &start);
         let doc = XmlReader::read_xml(&ftr).map_err(|e| e.to_string())?;
         let mut buf = vec![];
         doc.write_xml(&mut buf).map_err(|e| e.to_string())?;
@@ -105,6 +122,21 @@ pub fn run(case: &Value) -> Vec<String> {
             std::fs::write(indir.join("types.xsd"), TYPES_XSD).unwrap();
         }
         let input_abs = indir.join(input_name);
+        // same contents, other storage: the sibling / the input becomes a symbolic link to a regular file kept elsewhere
+        let sib = scn["sib"].as_str().unwrap_or("regular");
+        let link = |name: &str| {
+            let here = indir.join(name);
+            if here.is_file() {
+                let real = elsewhere.join(format!("real_{name}"));
+                std::fs::rename(&here, &real).unwrap();
+                std::os::unix::fs::symlink(&real, &here).unwrap();
+            }
+        };
+        match sib {
+            "symlink_sibling" => link("types.xsd"),
+            "symlink_input" => link(input_name),
+            _ => {}
+        }
         // output
         let out_abs = match outsel {
             "explicit_same" => indir.join("custom_out.rs"),
